@@ -39,6 +39,7 @@ type loadX struct {
 	Nograph bool     `json:"nograph"`
 	Nodes   []mNode  `json:"nodes"`
 	Perturb string   `json:"perturb"`
+	Sparse  string   `json:"sparse"` // sparse initializer entries of the graph (a field the interpreter has no use for)
 	Expect  string   `json:"expect"` // ok | error | nocrash
 	Errc    []string `json:"errc"`
 }
@@ -120,6 +121,25 @@ func execLoadCase(c *Case) []ModeResult {
 		g.Input = append(g.Input, mkValueInfo("x", "f32", []DimSpec{{Param: "n"}, {Size: 3}}), &onnx.ValueInfoProto{Name: "untyped"},
 			&onnx.ValueInfoProto{Name: "noshape", Type: &onnx.TypeProto{Value: &onnx.TypeProto_TensorType{TensorType: &onnx.TypeProto_Tensor{ElemType: 1}}}})
 		g.Output = append(g.Output, &onnx.ValueInfoProto{Name: "y"})
+		if x.Sparse != "" && x.Sparse != "none" {
+			vals := &onnx.TensorProto{Name: "sv", DataType: 1, Dims: []int64{1}, FloatData: []float32{1}}
+			idx := &onnx.TensorProto{Name: "si", DataType: 7, Dims: []int64{1}, Int64Data: []int64{0}}
+			switch x.Sparse {
+			case "complete":
+				g.SparseInitializer = append(g.SparseInitializer, &onnx.SparseTensorProto{Values: vals, Indices: idx, Dims: []int64{3}})
+			case "no_values":
+				g.SparseInitializer = append(g.SparseInitializer, &onnx.SparseTensorProto{Indices: idx, Dims: []int64{3}})
+			case "no_indices":
+				g.SparseInitializer = append(g.SparseInitializer, &onnx.SparseTensorProto{Values: vals, Dims: []int64{3}})
+			case "empty":
+				g.SparseInitializer = append(g.SparseInitializer, &onnx.SparseTensorProto{})
+			case "values_unnamed":
+				vals.Name = ""
+				g.SparseInitializer = append(g.SparseInitializer, &onnx.SparseTensorProto{Values: vals, Indices: idx, Dims: []int64{3}})
+			case "two_no_values":
+				g.SparseInitializer = append(g.SparseInitializer, &onnx.SparseTensorProto{Dims: []int64{3}}, &onnx.SparseTensorProto{Dims: []int64{2}})
+			}
+		}
 		mp.Graph = g
 	}
 	b, err := proto.Marshal(mp)
